@@ -206,6 +206,34 @@ def _many_conflicts(concepts):
 ITEMS['many_conflicts'] = _many_conflicts
 
 
+def _argument_forms(concepts):
+    """the same names handed over in different (deterministic) container types: insertion-ordered dict views, dicts,
+    tuples, generators, strings"""
+    out = []
+    new = ['qz', 'qa', 'pa', 'qm', 'qb']
+    for make in (lambda: dict.fromkeys(new).keys(), lambda: dict.fromkeys(new), lambda: tuple(new),
+                 lambda: (x for x in new), lambda: dict.fromkeys(new).items().__class__ and list(new)):
+        d = _defn(concepts)
+        d.add_object('nu', make())
+        d.add_property('qq', make())
+        out.append(_snap(d))
+        d2 = _defn(concepts)
+        d2.set_object('ya', make())
+        d2.set_property('pb', make())
+        out.append(_snap(d2))
+    d3 = concepts.Definition('dcba', 'zyxw', [(1, 0, 1, 0), (0, 1, 0, 1), (1, 1, 0, 0), (0, 0, 1, 1)])
+    d3.add_object('e', 'yxv')
+    out.append(_snap(d3))
+    out.append(_snap(d3.take(dict.fromkeys('bd').keys(), dict.fromkeys('wz'), reorder=True)))
+    c = _context(concepts)
+    out.append([c.intension(dict.fromkeys(['xe', 'zo']).keys()), c.extension(dict.fromkeys(['pc'])), c[('zo', 'xe')],
+                c.neighbors(dict.fromkeys(['wu']).keys())])
+    return out
+
+
+ITEMS['argument_forms'] = _argument_forms
+
+
 def prepare(concepts, name):
     return PRE[name](concepts) if name in PRE else None
 
@@ -222,4 +250,7 @@ if __name__ == '__main__':
     import os
     sys.path.insert(0, os.environ.get('VERIF_REPO', '/repo'))
     import concepts
-    print(json.dumps(transcript(concepts, sys.argv[1]), sort_keys=True))
+    if sys.argv[1] == '--all':
+        print(json.dumps({name: transcript(concepts, name) for name in ITEMS}, sort_keys=True))
+    else:
+        print(json.dumps(transcript(concepts, sys.argv[1]), sort_keys=True))
